@@ -187,7 +187,7 @@ def build_cases(ctx, scale=1.0):
     kinds = ["none", "cubic", "ortho", "ortho", "tric", "tric"]
     dists_nl = ["uniform", "clustered", "boundary", "outside", "outside", "frac", "shifted"]
     cmodes = ["tiny", "mid", "mid", "half", "half", "above"]
-    n_small = int((150 if quick else 1500) * scale)
+    n_small = int((300 if quick else 2500) * scale)
     for _ in range(n_small):
         kind = rng.choice(kinds)
         dist = rng.choice(dists_nl)
@@ -417,19 +417,33 @@ def summary(case):
 
 
 def run_impl_robust(ctx, script, cases, keys, chunk=400, crash_out=None):
-    """run the implementation on all cases; when the runner process dies (a crash inside a C kernel), bisect to
-    isolate the crashing cases and report them as {"err": "Crash"} instead of losing the whole batch"""
-    def go(cs, depth):
-        try:
-            return ctx.run_impl(script, {"cases": [{k: c.get(k) for k in keys} for c in cs]}, timeout=900)["out"]
-        except Exception as e:  # noqa: BLE001
-            if len(cs) == 1 or depth > 12:
-                return [dict(crash_out or {}, err="Crash", msg=str(e)[-300:]) for _ in cs]
-            h = len(cs) // 2
-            return go(cs[:h], depth + 1) + go(cs[h:], depth + 1)
-    outs = []
+    """run the implementation on all cases.  When the runner process dies or hangs (a crash / endless loop inside a
+    C kernel) the cases of that batch are re-run one by one, smallest first, until the first one that kills the
+    runner is found: it is reported as {"err": "Crash"}; the remaining cases of the batch are marked "NotRun"."""
+    def payload(cs):
+        return {"cases": [{k: c.get(k) for k in keys} for c in cs]}
+    outs = [None] * len(cases)
     for s0 in range(0, len(cases), chunk):
-        outs += go(cases[s0:s0 + chunk], 0)
+        idx = list(range(s0, min(s0 + chunk, len(cases))))
+        try:
+            res = ctx.run_impl(script, payload([cases[i] for i in idx]), timeout=900)["out"]
+            for i, o in zip(idx, res):
+                outs[i] = o
+            continue
+        except Exception as e:  # noqa: BLE001
+            ctx.log("implementation runner died on a batch (%s); isolating" % str(e)[-120:].replace("\n", " "))
+        found = False
+        for i in sorted(idx, key=lambda i: len(str(cases[i])))[:60]:
+            if found:
+                break
+            try:
+                outs[i] = ctx.run_impl(script, payload([cases[i]]), timeout=120)["out"][0]
+            except Exception as e:  # noqa: BLE001
+                outs[i] = dict(crash_out or {}, err="Crash", msg=str(e)[-300:])
+                found = True
+        for i in idx:
+            if outs[i] is None:
+                outs[i] = dict(crash_out or {}, err="NotRun")
     return outs
 
 
@@ -490,6 +504,9 @@ def coq_codes(ctx, coq, sizes):
 def run_cases(ctx, cases, replaying=False):
     outs = run_impl_robust(ctx, "neigh_impl.py", cases, ("api", "xyz", "cell", "c", "periodic", "query", "hay"),
                            crash_out={"box": None, "K": 10, "res": None, "cd": None})
+    keep = [i for i, o in enumerate(outs) if o.get("err") != "NotRun"]
+    cases = [cases[i] for i in keep]
+    outs = [outs[i] for i in keep]
     nb_idx = [i for i, c in enumerate(cases) if c["api"] == "nb"]
     nl_idx = [i for i, c in enumerate(cases) if c["api"] == "nl"]
     ctx.log("implementation ran on %d frames" % len(cases))
